@@ -36,6 +36,7 @@ KP_ATOL, KP_RTOL = 2e-4, 3e-6       # float32 keypoint arithmetic on coordinates
 CONTENT_TOL = 0.12                  # measured vs model content position (output px) + fit residual
 SEL_F11 = "resize_total_factor_ge_3"
 SEL_F11B = "resize_rounded_size_far_edge"
+SEL_F11C = "resize_offset_amplified_by_augmentation"
 SEL_F04K = "kornia_affine_align_corners_nonsquare"
 SEL_F04P = "kornia_augmenter_datapipe_align_corners_nonsquare"
 OP_NAMES = {"RandomAffine": "affine", "RandomErasing": "erase", "RandomMixUpV2": "mixup",
@@ -78,44 +79,68 @@ def py_sizematcher(H, W, mh, mw):
     return (th, tw, mh, mw, eff)
 
 
-def py_pipe_axis(n, target, out, eff, s):
-    """(A, K, size, exact) after size matcher + resizer on one axis."""
-    A, K = hp(F(target, n)), (eff, F(0))
-    exact = F(target) == n * eff
-    if s != 1:
-        new = math.floor(out * s)
-        if new <= 0:
-            return None
-        exact = exact and F(new) == out * s
-        A, K = comp(hp(F(new, out)), A), comp((s, F(0)), K)
-        out = new
-    return A, K, out, exact
-
-
 SEL_MARGIN = F(9, 10)      # classification of a MEASURED failure (>= 1 px) allows 0.1 px of measurement tolerance
+
+
+def py_pipe(H, W, mh, mw, s):
+    """Python mirror of Geometry.pipe_pre's bookkeeping: factor k, exactness, original sides, SIZE DEFECTS
+    (actual minus nominal side of the resized content, from the four sizes only)."""
+    r = py_sizematcher(H, W, mh, mw)
+    if r is None:
+        return None
+    th, tw, oh, ow, eff = r
+    nh = oh if s == 1 else math.floor(oh * s)
+    nw = ow if s == 1 else math.floor(ow * s)
+    if nh <= 0 or nw <= 0:
+        return None
+    k = eff * s
+    exact = (F(tw) == W * eff and F(th) == H * eff and F(nw) == ow * s and F(nh) == oh * s)
+    return {"k": k, "exact": exact, "nx": W, "ny": H,
+            "dx": F(tw * nw, ow) - W * k, "dy": F(th * nh, oh) - H * k}
+
+
+def py_perr(d, k, n, x):
+    """Geometry.perr: closed form of the pipeline's registration error, d * t + (k - 1)/2"""
+    return d * ((x + F(1, 2)) / n) + (k - 1) / 2
+
+
+def py_band(d, k, t, margin=F(1)):
+    """Geometry.band for margin = 1:  d*t >= (3-k)/2  or  d*t <= -(1+k)/2  (sizes / position only)"""
+    return d * t >= (2 * margin + 1 - k) / 2 or d * t <= -(2 * margin - 1 + k) / 2
 
 
 def py_selectors(H, W, mh, mw, s, pts, margin=SEL_MARGIN):
     """-> (F11?, [F11b? per keypoint]) for the pipelines size matcher -> resizer -> (crop/pad).
-    margin=1 is exactly Geometry.selector_F11b (cross-checked against Coq)."""
-    r = py_sizematcher(H, W, mh, mw)
-    if r is None:
+    margin=1 is exactly Geometry.selector_F11b (cross-checked against Coq per keypoint)."""
+    pp = py_pipe(H, W, mh, mw, s)
+    if pp is None:
         return False, [False] * len(pts)
-    th, tw, oh, ow, eff = r
-    ax, ay = py_pipe_axis(W, tw, ow, eff, s), py_pipe_axis(H, th, oh, eff, s)
-    if ax is None or ay is None:
-        return False, [False] * len(pts)
-    f11 = eff * s >= 3
-    exact = ax[3] and ay[3]
+    f11 = pp["k"] >= 3
     out = []
     for p in pts:
-        if p is None or f11 or exact:
+        if p is None or f11 or pp["exact"]:
             out.append(False)
             continue
-        ex = abs(ap(ax[0], p[0]) - ap(ax[1], p[0]))
-        ey = abs(ap(ay[0], p[1]) - ap(ay[1], p[1]))
-        out.append(ex >= margin or ey >= margin)
+        out.append(py_band(pp["dx"], pp["k"], (p[0] + F(1, 2)) / pp["nx"], margin)
+                   or py_band(pp["dy"], pp["k"], (p[1] + F(1, 2)) / pp["ny"], margin))
     return f11, out
+
+
+def py_sel_f11c(H, W, mh, mw, s, m, pts, margin=SEL_MARGIN):
+    """Geometry.selector_F11c per keypoint (margin = 1): outside F11 / F11b(margin 1 in Coq; here the same margin
+    as the classification), the closed-form pipeline error multiplied by the linear part of m reaches `margin`."""
+    pp = py_pipe(H, W, mh, mw, s)
+    if pp is None:
+        return [False] * len(pts)
+    f11, f11b = py_selectors(H, W, mh, mw, s, pts, margin)
+    out = []
+    for p, b in zip(pts, f11b):
+        if p is None or f11 or b:
+            out.append(False)
+            continue
+        ex, ey = py_perr(pp["dx"], pp["k"], pp["nx"], p[0]), py_perr(pp["dy"], pp["k"], pp["ny"], p[1])
+        out.append(abs(m[0] * ex + m[1] * ey) >= margin or abs(m[3] * ex + m[4] * ey) >= margin)
+    return out
 
 
 def mat_comp(g, f):
@@ -390,6 +415,18 @@ def gen_case(rng, kind, thorough):
                                 "mixup_lambda": None}
                 if c["aug_cfg"]["scale"] is None:
                     del c["aug_cfg"]["scale"]
+                if rng.random() < 0.4:
+                    # enlarging pipelines (factor 2 .. 3) under strong rotations / zoom: the pipeline's half-pixel
+                    # offset of up to just under 1 px is multiplied by the matrix (finding F11c lives here)
+                    c["mh"], c["mw"] = None, None
+                    c["s"] = rng.choice([F(2), F(5, 2), F(5, 2)])
+                    c["H"], c["W"] = H, W = rng.randint(24, 72), rng.randint(24, 72)
+                    c["aug_cfg"]["rotation"] = rng.choice([45.0, 90.0, 180.0])
+                    c["pts"] = [gen_pts(rng, H, W, 3, p_nan=0.0) for _ in range(c["n_inst"])]
+                    if kind == "ds_centered":
+                        k = c["s"]
+                        for inst in c["pts"]:
+                            inst[1:] = clamp_pts(gen_near(rng, inst[0][0], inst[0][1], F(c["cw"]) / k, F(c["ch"]) / k, 2), H, W)
             elif c["aug"] == "intensity":
                 c["aug_cfg"] = {"uniform_noise_p": rng.choice([0.0, 1.0]), "gaussian_noise_p": rng.choice([0.0, 1.0]),
                                 "contrast_p": 1.0, "brightness": 0.2, "brightness_p": rng.choice([0.0, 1.0])}
@@ -536,6 +573,13 @@ def gen_case(rng, kind, thorough):
         c["stride"] = rng.choice([1, 2, 8, 16, 32])
         c["scale"] = rng.choice([F(1), F(1), F(1, 2), F(3, 4), F(2)])
         c["min_crop"] = rng.choice([None, None, 0, 32, 64, 100, 50, 160, 7])
+    elif kind == "aug_default":
+        c["gray"] = False
+        c["deg"] = rng.choice([0.0, 15.0, 45.0, 90.0, 180.0])
+        c["tr"] = [rng.choice([0.0, 0.02, 0.25]), rng.choice([0.0, 0.02, 0.25])]
+        c["sc"] = list(rng.choice([(1.0, 1.0), (0.9, 1.1), (0.5, 1.5), (1.4, 1.5)]))
+        c["pts"] = gen_pts(rng, H, W, 5, p_nan=0.1)
+        c["aug_seed"] = rng.randrange(1 << 30)
     elif kind == "aug":
         n_nodes = rng.randint(1, 4)
         c["n_nodes"] = n_nodes
@@ -1109,6 +1153,23 @@ def run_smdp(I, c, m, o):
             o.b("SizeMatcher DataPipe only pads at the bottom/right but changed the keypoints")
 
 
+def check_defects(c, m, o, label=""):
+    """the size defects the selectors are stated in: Python mirror == Coq record fields, and the closed form
+    perr == the error of the modelled maps at both ends of each axis (theorem c04_pipe_*_error_formula, here
+    as a per-case check of the very numbers the selectors use)"""
+    pp = py_pipe(c["H"], c["W"], c["mh"], c["mw"], c["s"])
+    q = [core.frac(v) for v in m[1]]
+    if pp is None or len(q) < 11:
+        o.d(f"{label}size defects: no pipeline / model result too short")
+        return
+    if (q[8], q[9], q[10]) != (pp["k"], pp["dx"], pp["dy"]):
+        o.d(f"{label}factor / size defects: python {(pp['k'], pp['dx'], pp['dy'])} coq {(q[8], q[9], q[10])}")
+    for (A, K, d, n) in (((q[0], q[1]), (q[4], q[5]), pp["dx"], pp["nx"]), ((q[2], q[3]), (q[6], q[7]), pp["dy"], pp["ny"])):
+        for x in (F(0), F(n - 1)):
+            if ap(A, x) - ap(K, x) != py_perr(d, pp["k"], n, x):
+                o.d(f"{label}closed form of the pipeline error differs from the modelled maps at x={x}")
+
+
 def run_full(I, c, m, o):
     """the functional API chained in the order the datasets use: size matcher, * eff, resizer, stride pad"""
     torch, np = I.torch, I.np
@@ -1152,8 +1213,9 @@ def check_full_output(I, c, m, o, imgs_out, pts_out, pts_in, unit=1.0, label="")
             o.d(f"{label}keypoint {k}: impl {a} model {b}")
     f11, f11b = py_selectors(c["H"], c["W"], c["mh"], c["mw"], s, pts_in)
     f11x, f11bx = py_selectors(c["H"], c["W"], c["mh"], c["mw"], s, pts_in, margin=F(1))
-    if bool(m[0][3]) != f11x or bool(m[0][4]) != any(f11bx):
-        o.d(f"{label}selectors: python {(f11x, any(f11bx))} coq {(m[0][3], m[0][4])}")
+    if bool(m[0][3]) != f11x or [bool(v) for v in m[0][5:]] != f11bx or bool(m[0][4]) != any(f11bx):
+        o.d(f"{label}selectors: python {(f11x, f11bx)} coq {(m[0][3], m[0][5:])}")
+    check_defects(c, m, o, label)
     return registration(I, o, imgs_out if len(imgs_out) == 3 else imgs_out[0], (c["H"], c["W"]), pts_in, pts_out,
                         f11, f11b, model_affs(m), unit, label, slack=ripple(c["H"], c["W"], c["mh"], c["mw"], c["s"]))
 
@@ -1199,8 +1261,9 @@ def check_centered_output(I, c, m, o, imgs_out, pts_out, pts_in, unit=1.0, label
             o.d(f"{label}keypoint {k}: impl {a} model {b}")
     f11, f11b = py_selectors(c["H"], c["W"], c["mh"], c["mw"], c["s"], pts_in)
     f11x, f11bx = py_selectors(c["H"], c["W"], c["mh"], c["mw"], c["s"], pts_in, margin=F(1))
-    if bool(m[0][3]) != f11x or bool(m[0][4]) != any(f11bx):
-        o.d(f"{label}selectors: python {(f11x, any(f11bx))} coq {(m[0][3], m[0][4])}")
+    if bool(m[0][3]) != f11x or [bool(v) for v in m[0][5:]] != f11bx or bool(m[0][4]) != any(f11bx):
+        o.d(f"{label}selectors: python {(f11x, f11bx)} coq {(m[0][3], m[0][5:])}")
+    check_defects(c, m, o, label)
     return registration(I, o, imgs_out if len(imgs_out) == 3 else imgs_out[0], (c["H"], c["W"]), pts_in, pts_out,
                         f11, f11b, model_affs(m), unit, label, slack=ripple(c["H"], c["W"], c["mh"], c["mw"], c["s"]))
 
@@ -1450,6 +1513,38 @@ def run_aug1(I, c, o):
         c["_stack"].append(item)
 
 
+def run_aug_default(I, c, o):
+    """kornia's RandomAffine with its DEFAULT align_corners=False, called directly (no code of the current
+    tree takes this path any more: findings F04k / F04p are fixed).  Keeps the historic model `warp_mech false`
+    (= D m D^-1, theorems c04_warp_mech_default, c04_aug_square_*, c04_aug_nonsquare_refuted) and selector_F04k
+    tied to the library on every run."""
+    import kornia as K
+    torch, np = I.torch, I.np
+    H, W = c["H"], c["W"]
+    torch.manual_seed(c["aug_seed"])
+    aug = K.augmentation.RandomAffine(degrees=c["deg"], translate=tuple(c["tr"]), scale=tuple(c["sc"]), p=1.0,
+                                      keepdim=True, same_on_batch=True)
+    out = aug(ramp3(torch, H, W))
+    tm = aug.transform_matrix
+    if tm is None:
+        o.d("RandomAffine (default) did not report its matrix")
+        return
+    c["_mat"] = mat_fracs(tm)
+    fit = fit_content(np, *as_xym(np, out), (H, W))
+    c["_located"] = []
+    if fit is None:
+        o.stats["content_unmeasured"] = o.stats.get("content_unmeasured", 0) + 1
+        return
+    for k, p in enumerate(c["pts"]):
+        if p is None:
+            continue
+        a = fwd(fit, (float(p[0]), float(p[1])))
+        u = fit_unc(fit, a)
+        if u <= 0.4 and -0.5 <= a[0] <= W - 0.5 and -0.5 <= a[1] <= H - 0.5:
+            c["_located"].append((k, a, u))
+    o.stats["default_warp_located"] = o.stats.get("default_warp_located", 0) + len(c["_located"])
+
+
 # ---- datasets end to end ----------------------------------------------------
 def overcrop(c):
     return (math.isqrt(2 * c["ch"] * c["ch"]), math.isqrt(2 * c["cw"] * c["cw"]))
@@ -1557,6 +1652,7 @@ def run_dataset(I, c, ms, o):
             pout = kp_list(frs[0][key_pts])[:len(pin)]
             fits.append(check_full_output(I, c, m, o, imgs, pout, pin, unit=1 / 255, label=f"{c['ds']}: "))
         c.setdefault("_base_pts", []).append(pout)
+        c.setdefault("_pins", []).append(pin)
     if c.get("chunks"):
         # the np_chunks path (npz on disk, image through a PIL uint8 round trip): same sizes, same keypoints,
         # same image up to the uint8 quantisation -> the registration of the in-memory path carries over
@@ -1626,6 +1722,25 @@ def run_dataset(I, c, ms, o):
                         SEL_F04K if known else None)
         # keypoints follow the sampled matrix (correspondence of the wrapper model)
         c.setdefault("_aug", []).append((j, mat_fracs(mats[0][0]), pout))
+        # END TO END (round 4): the augmented sample against the ORIGINAL labels — the content of every labelled
+        # point is located in the augmented image (ramp) and compared with the keypoint the dataset returns.  The
+        # pipeline's own offset is carried through the augmentation (multiplied by the matrix's linear part):
+        # failures fall under F11 / F11b (already >= 1 px before) or F11c (amplified), anything else is a violation
+        mq = mat_fracs(mats[0][0])
+        pin = c["_pins"][j]
+        po = pout[:len(pin)]
+        f11, f11b = py_selectors(c["H"], c["W"], c["mh"], c["mw"], c["s"], pin)
+        f11c = py_sel_f11c(c["H"], c["W"], c["mh"], c["mw"], c["s"], mq, pin)
+        amp = max(1.0, max(abs(float(mq[0])) + abs(float(mq[1])), abs(float(mq[3])) + abs(float(mq[4]))))
+        located = []
+        registration(I, o, [norm_img(c, s_[key_img]) for s_ in frs] if three_frames(c) else frs[0][key_img],
+                     (c["H"], c["W"]), pin, po, f11, f11b, None, 1 / 255,
+                     f"{c['ds']} item {j}, augmented sample against the original labels: ",
+                     sel=lambda k, f11=f11, f11b=f11b, f11c=f11c:
+                         SEL_F11 if f11 else (SEL_F11B if f11b[k] else (SEL_F11C if f11c[k] else None)),
+                     located=located, slack=amp * ripple(c["H"], c["W"], c["mh"], c["mw"], c["s"]))
+        o.stats["aug_end_to_end"] = o.stats.get("aug_end_to_end", 0) + 1
+        c.setdefault("_aug_full", []).append((j, mq, pin, po, located))
 
 
 # ---- datasets over several videos --------------------------------------------
@@ -1836,7 +1951,10 @@ def run_case(I, c, ms):
             else:
                 RUNNERS[k](I, c, ms[0], o)
         elif k in ("ds_full", "ds_centered"):
+            c["_fixed_ds"] = I.fixed_f04k
             run_dataset(I, c, ms, o)
+        elif k == "aug_default":
+            run_aug_default(I, c, o)
         elif k == "ds_multi":
             run_dataset_multi(I, c, ms, o)
         elif k == "aug":
@@ -1878,6 +1996,21 @@ def second_pass_terms(c):
         pout = [None if p is None else (p[0] + float(t[0]), p[1] + float(t[1])) for p in pout]
         c2 = {"kind": "aug", "n_nodes": len(base), "insts": insts, "H": c["H"], "W": c["W"]}
         out.append(("ds_aug", term(c2, mat), pout, j))
+    if c.get("_fixed_ds") is not None:
+        for (j, mq, pin, po, located) in c.get("_aug_full", []):
+            H, W = core.cz(c["H"]), core.cz(c["W"])
+            head = (f"{core.cbool(c['_fixed_ds'])} {H} {W} {coz(c['mh'])} {coz(c['mw'])} {core.cq(c['s'])} "
+                    f"{core.cz(c['stride'])}")
+            if c["ds"] == "centered":
+                cen = centroid_of(c, c["pts"][j])
+                t = (f"CCenteredAug {head} {core.cz(c['ch'])} {core.cz(c['cw'])} {core.cq(cen[0])} {core.cq(cen[1])} "
+                     f"{cmat(mq)} {core.clist(pin, ckp)}")
+            else:
+                t = f"CFullAug {head} {cmat(mq)} {core.clist(pin, ckp)}"
+            out.append(("pipe_aug", t, po, {"j": j, "mq": mq, "pin": pin, "located": located}))
+    if c["kind"] == "aug_default" and c.get("_mat") is not None:
+        out.append(("aug_content", f"CAugContent false {core.cz(c['H'])} {core.cz(c['W'])} {cmat(c['_mat'])} "
+                                   f"{core.clist(c['pts'], ckp)}", c["_located"], {"default": True}))
     return out
 
 
@@ -1885,10 +2018,10 @@ def mix(thorough):
     if thorough:
         return {"sizematch": 2000, "resize": 2000, "pad": 400, "bbox": 300, "crop": 1400, "full": 2000, "centered": 1200,
                 "cropsize": 1000, "aug": 900, "ds_full": 700, "ds_centered": 450, "smdp": 300, "cropper": 500,
-                "aug1": 900, "ds_multi": 500}
+                "aug1": 900, "ds_multi": 500, "aug_default": 150}
     return {"sizematch": 120, "resize": 120, "pad": 40, "bbox": 30, "crop": 90, "full": 110, "centered": 70,
             "cropsize": 80, "aug": 60, "ds_full": 60, "ds_centered": 40, "smdp": 30, "cropper": 40, "aug1": 80,
-            "ds_multi": 50}
+            "ds_multi": 50, "aug_default": 16}
 
 
 def load_corpus():
@@ -1925,8 +2058,36 @@ def evaluate(run, I, cases):
                 mc = (float(core.frac(cont[k][0])), float(core.frac(cont[k][1])))
                 if max(abs(a[0] - mc[0]), abs(a[1] - mc[1])) > CONTENT_TOL + u:
                     outcomes[i].d(f"augmentation content map: keypoint {k} content measured at ({a[0]:.3f},{a[1]:.3f}), "
-                                  f"model (align_corners fixed: fn={cases[i].get('_fixed')} dp={cases[i].get('_fixed_dp')}) "
-                                  f"({mc[0]:.3f},{mc[1]:.3f})")
+                                  f"model (align_corners fixed: fn={cases[i].get('_fixed')} dp={cases[i].get('_fixed_dp')}"
+                                  f"{' ; kornia default, align_corners=False' if j else ''}) ({mc[0]:.3f},{mc[1]:.3f})")
+            if j and j.get("default"):
+                # the historic selector (kornia's default warp): Coq bits == Python mirror
+                cc = cases[i]
+                want = [0 if q is None else int(py_sel_f04k(cc["H"], cc["W"], cc["_mat"], q)) for q in cc["pts"]]
+                if list(r[0]) != want:
+                    outcomes[i].d(f"selector_F04k: coq {list(r[0])} python {want}")
+            continue
+        if tag == "pipe_aug":
+            cc, oc = cases[i], outcomes[i]
+            lab = f"{cc['ds']} item {j['j']} pipeline + augmentation: "
+            if r is None:
+                oc.d(lab + "model says error, implementation returned")
+                continue
+            pin, mq = j["pin"], j["mq"]
+            cont, kps = r[2][0], r[2][1]
+            for k, (a, b) in enumerate(zip(pout, kps)):
+                b = None if b is None else (core.frac(b[0]), core.frac(b[1]))
+                if not kp_close(a, b, atol=2e-3, rtol=2e-5):
+                    oc.d(f"{lab}keypoint {k} impl {a} model {b and (float(b[0]), float(b[1]))}")
+            for (k, a, u) in j["located"]:
+                mc = (float(core.frac(cont[k][0])), float(core.frac(cont[k][1])))
+                if max(abs(a[0] - mc[0]), abs(a[1] - mc[1])) > CONTENT_TOL + u:
+                    oc.d(f"{lab}content of original point {k} measured at ({a[0]:.3f},{a[1]:.3f}), model ({mc[0]:.3f},{mc[1]:.3f})")
+            f11x, f11bx = py_selectors(cc["H"], cc["W"], cc["mh"], cc["mw"], cc["s"], pin, margin=F(1))
+            f11cx = py_sel_f11c(cc["H"], cc["W"], cc["mh"], cc["mw"], cc["s"], mq, pin, margin=F(1))
+            want = [int(f11x)] + [v for b, c_ in zip(f11bx, f11cx) for v in (int(b), int(c_))]
+            if list(r[0]) != want:
+                oc.d(f"{lab}selectors (F11, then F11b / F11c per point): coq {list(r[0])} python {want}")
             continue
         mp = [None if p is None else (core.frac(p[0]), core.frac(p[1])) for inst in r[2] for p in inst]
         if len(mp) != len(pout):
